@@ -451,7 +451,7 @@ func (tr *Tr) discharge(cfg *SolverCfg, workers int, keep func(o *Obligation) bo
 	// first pass: incremental batches; whatever is not unsat is retried standalone below
 	sl := tr.newSlicer()
 	decls := tr.declsOnly()
-	if !cfg.Race {
+	if true { // the incremental batch first in every tier; what it leaves is raced (thorough) or retried standalone
 		as := make([]string, len(todo))
 		for i, o := range todo {
 			as[i] = tr.relevantAssumes(sl, o.Guard, true, o) + fmt.Sprintf("(assert (and %s (not %s)))\n", o.Guard, o.Goal)
